@@ -26,6 +26,12 @@ m = {
     "engines": [
         {"name": "pbt driver", "path": "engine/pbt_main.cpp", "serves_properties": sorted(props.PROPS.keys()),
          "kind_free_text": "rapidcheck generates and shrinks tapes (vector<uint16>); every case runs in a forked child of a Debug+ASan+UBSan build; tape decoders build the case by construction"},
+        {"name": "libFuzzer adapter for tape-driven cases", "path": "engine/pbt_fuzz.h",
+         "serves_properties": sorted(p for p, sp in props.PROPS.items() if any(r.get("kind") == "fuzz" and r["harness"] != "fz_lang" for r in sp["runs"]("quick"))),
+         "kind_free_text": "coverage-guided fuzzing (clang libFuzzer, ASan+UBSan): the fuzzer's bytes are the tape of the same case decoders and oracles, in-process"},
+        {"name": "libFuzzer reader target", "path": "engine/fz_lang.cpp",
+         "serves_properties": sorted(p for p, sp in props.PROPS.items() if any(r.get("harness") == "fz_lang" for r in sp["runs"]("quick"))),
+         "kind_free_text": "coverage-guided fuzzing of riddle::parser on byte strings (empty corpus and example programs, keyword dictionary) with metamorphic and leak oracles inside the target"},
     ],
     "checks": [],
     "not_applicable": [],
